@@ -50,9 +50,14 @@ type memInfo struct {
 	f    *memFile
 }
 
-func (i memInfo) Name() string       { return i.name }
-func (i memInfo) Size() int64        { return 0 }
-func (i memInfo) Mode() fs.FileMode  { if i.f.dir { return fs.ModeDir | 0o755 }; return 0o644 }
+func (i memInfo) Name() string { return i.name }
+func (i memInfo) Size() int64  { return 0 }
+func (i memInfo) Mode() fs.FileMode {
+	if i.f.dir {
+		return fs.ModeDir | 0o755
+	}
+	return 0o644
+}
 func (i memInfo) ModTime() time.Time { return time.Unix(i.f.mtime, 0) }
 func (i memInfo) IsDir() bool        { return i.f.dir }
 func (i memInfo) Sys() any           { return nil }
